@@ -109,6 +109,8 @@ void arrFillOut(int n, double *out);
 void arrWeights(int *values, int nvalues, const int *weights, int nweights);
 void charGrow(char *s);
 int charArrLen(char **names, int n);
+int charArrTwo(char **a, int na, char **b, int nb);
+void arrInOut(const int *in, int nin, int n, double *out);
 Item &refItem();
 std::vector<double> vecRetD(int n);
 
